@@ -448,20 +448,25 @@ func matchedAgainstSibling(info *types.Info, fd *core.FuncDecl, a Accum) string 
 		if !ok || as.Pos() >= a.Assign.Pos() || len(as.Lhs) != 1 || len(as.Rhs) != 1 || !sameLoc(info, as.Lhs[0], a.Dest) {
 			return true
 		}
-		call, ok := ast.Unparen(as.Rhs[0]).(*ast.CallExpr)
-		if !ok {
+		// the matching call: the whole right-hand side, or the receiver chain inside it
+		// (`t.Sum = match(rr, t.Sum, x).Subtract(x)`)
+		ast.Inspect(as.Rhs[0], func(m ast.Node) bool {
+			call, ok := m.(*ast.CallExpr)
+			if !ok {
+				return true
+			}
+			fn := core.Callee(info, call)
+			var other, subject ast.Expr
+			if isAmountMethod(fn, "MatchPrecision") && len(call.Args) == 1 {
+				other, subject = call.Args[0], core.RecvExpr(call)
+			} else if fn != nil && core.InModule(fn.Pkg()) && len(call.Args) == 3 && !isAmountMethod(fn, fn.Name()) {
+				other, subject = call.Args[2], call.Args[1]
+			}
+			if other != nil && subject != nil && sameLoc(info, subject, a.Dest) && core.RootVar(info, other) == addRoot {
+				res = "matched earlier in the same iteration against " + types.ExprString(other) + " of the same object"
+			}
 			return true
-		}
-		fn := core.Callee(info, call)
-		var other ast.Expr
-		if isAmountMethod(fn, "MatchPrecision") && len(call.Args) == 1 {
-			other = call.Args[0]
-		} else if fn != nil && len(call.Args) == 3 {
-			other = call.Args[2]
-		}
-		if other != nil && core.RootVar(info, other) == addRoot {
-			res = "matched earlier in the same iteration against " + types.ExprString(other) + " of the same object"
-		}
+		})
 		return true
 	})
 	return res
